@@ -20,7 +20,7 @@ HERE = os.path.dirname(os.path.abspath(__file__))
 TIMEOUT = 5.0
 AS_LIMIT = 4 << 30
 FLAGSETS = [["-pmt"], ["-scte35"], ["-ebp"], ["-scte35", "-ebp", "-pid", "257"], ["-pmt=false", "-pid", "103"]]
-KNOWN_SIG = "explicit-panic(err)@main.main"
+KNOWN_SIG = None   # was "explicit-panic(err)@main.main" until the repair (fix commit in /repo, see known_findings.json)
 KNOWN_WHAT = ("cli/parsefile.go calls panic(err) when psi.ReadPMT fails (PMT missing, truncated or damaged): the tool dies "
               "with a stack trace instead of reporting the error (notes/findings/C05-cli.md)")
 
